@@ -626,8 +626,9 @@ class ContentAnalysis(BufferAnalysis):
                         for x, y in ((l, r), (r, l)):
                             none = (isinstance(x, ast.Constant) and x.value is None) or \
                                 (isinstance(x, ast.Name) and fl.get(self.okey(fr, x.id)) == 'N')
-                            if none and (self.is_cursor(y, fr) or self.is_statefun(y, fr)):
-                                z.bot = True
+                            hy = self.hval(y, fr, fl, z)
+                            if none and (self.is_cursor(y, fr) or self.is_statefun(y, fr) or hy[0] is not None or hy[1] is not None):
+                                z.bot = True            # a value known to be a state of a chain is a handler, never None
                                 return (fl, z)
                         # a tree has no repeated ancestors: equal states of one chain have equal depth
                         for i in (0, 1):
